@@ -234,7 +234,7 @@ func (p *proxy) ServeHTTP(w http.ResponseWriter, r *http.Request) {
 	pending := newPendingRequest(r)
 	p.Lock()
 	p.requests[id] = pending
-	verifhook.Emit("Register", "id", id, "path", r.URL.Path)
+	verifhook.Emit("Register", "id", id, "path", r.URL.Path, "uri", r.URL.RequestURI())
 	p.Unlock()
 	verifhook.Gate("server.offer", "id", id)
 
